@@ -629,7 +629,13 @@ func parseAlert(ID string, alert *gtfsrt.Alert, opts *ParseRealtimeOptions) (*Al
 		informedEntities = append(informedEntities, informedEntity)
 	}
 
-	for routeID, directions := range informedRoutesFromTripIDs {
+	routeIDsFromTripIDs := make([]string, 0, len(informedRoutesFromTripIDs))
+	for routeID := range informedRoutesFromTripIDs {
+		routeIDsFromTripIDs = append(routeIDsFromTripIDs, routeID)
+	}
+	sort.Strings(routeIDsFromTripIDs)
+	for _, routeID := range routeIDsFromTripIDs {
+		directions := informedRoutesFromTripIDs[routeID]
 		if informedRoutes[routeID] {
 			continue
 		}
